@@ -779,10 +779,12 @@ Definition run_c13 (c : sx) : sx :=
       | HAccept acc proto z => s_ok [SZ 0; SB acc; SB proto; sbool z]
       end
   | SL [SZ 5; SB key] => s_ok [SB (compute_accept_key key)]
-  | SL [SZ 0; SZ r; SZ b; SZ cp; SL pms; SL ops; SL ks; SZ _] =>
+  | SL [SZ 0; SZ r; SZ b; SZ cp; SL pms; SL ops; SL ks; _] =>
       run_session (zb r) (Z.to_N b) (zb cp) (sx_pms pms) ops (sx_chunks ks)
-  | SL [SZ 0; SZ r; SZ b; SZ cp; SL pms; SL ops; SL ks; SZ _; SB _] =>
-      (* ninth element: padding the harness adds to cases with long wires (keeps them out of the
+  | SL [SZ 0; SZ r; SZ b; SZ cp; SL pms; SL ops; SL ks; _; SB _] =>
+      (* eighth element: harness-only configuration (well-formedness flag, how the transport
+         segments reads, how many leading operations the server runs inside the HTTP handler,
+         greetings); ninth element: padding the harness adds to cases with long wires (keeps them out of the
          kernel-evaluated sample, whose literals must stay small) *)
       run_session (zb r) (Z.to_N b) (zb cp) (sx_pms pms) ops (sx_chunks ks)
   | SL [SZ 1; SB key; SZ p; SZ align; SB data] =>
